@@ -149,6 +149,7 @@ func (e *Env) gensimTexts(nGen int, thorough bool) []GText {
 		GText{"boundaries", hdr + "S <- ([\\0x0-\\0x1] / [\\0x7E-\\0x80] 'x' / [\\0xFFFE-\\0x10001] 'y' / [\\0xD7FF-\\0xD7FF] / 'q' S)* T\nT <- [\\0x10FFFF-\\0x10FFFF] / 'a' / [b-c] T\n"},
 		GText{"imports", "package p\n\nimport \"fmt\"\nimport str \"strings\"\nimport \"os\"\nimport f \"fmt\"\nimport o2 \"os\"\nimport \"fmt\"\n\ntype T Peg {\n n int\n}\n\n# a header comment\nS <- <.> { fmt.Print(str.ToUpper(text)); f.Print(); _, _ = os.Args, o2.Args } S / !.\n"},
 		GText{"many-rules", manyRules(270)},
+		GText{"many-rules-lr", manyRulesLR(1300)},
 		GText{"bad-action", hdr + "S <- 'a' { this is ( not go } T\nT <- 'b'\n"},
 		GText{"layered-9", layered(9)},
 		GText{"layered-12-no-lr", layeredNoLR(12)},
@@ -252,6 +253,24 @@ func layeredNoLR(n int) string {
 		fmt.Fprintf(&sb, "E%d <- E%d '+' E%d / E%d\n", i, i+1, i, i+1)
 	}
 	fmt.Fprintf(&sb, "E%d <- 'a' / '(' E0 ')'\n", n)
+	return sb.String()
+}
+
+// manyRulesLR: well over a thousand rules with a left-recursive one every
+// hundred or so (work that a generator might want to split into batches).
+func manyRulesLR(n int) string {
+	var sb strings.Builder
+	sb.WriteString("package p\n\ntype T Peg {}\n\nS <- R0 !.\n")
+	for i := 0; i < n; i++ {
+		switch {
+		case i+1 == n:
+			fmt.Fprintf(&sb, "R%d <- 'z'\n", i)
+		case i%97 == 5:
+			fmt.Fprintf(&sb, "R%d <- R%d 'l' / 'a' R%d\n", i, i, i+1)
+		default:
+			fmt.Fprintf(&sb, "R%d <- 'a' R%d / 'b'\n", i, i+1)
+		}
+	}
 	return sb.String()
 }
 
